@@ -360,6 +360,51 @@ func c14StateResponses(c *mon.Ctx, r *gen.Rand, sc *simScenario, other *simScena
 					c.Failf("stateresponse:unexpected-error", "CheckStateResponse fails on a response without whole-response faults: %v (faults %v)", err, desc)
 					return
 				}
+				// a fault: the caller gives up (its context ends) between two of the signature checks of the batch. An
+				// error is an answer; events whose signature was never found good are not.
+				anyBadSig := false
+				for _, it := range all {
+					if it.pdu != nil && !it.sigGood {
+						anyBadSig = true
+					}
+				}
+				if mode == provReturns && anyBadSig {
+					for _, after := range []int{1, 2, 1 + len(all)/2} {
+						ctx, cancel := context.WithCancel(context.Background())
+						cv := &cancellingVerifier{inner: c14ring, after: after, cancel: cancel}
+						var ca, cs []gmsl.PDU
+						var cerr error
+						site, msg, pan := mon.Guard(func() {
+							ca, cs, cerr = gmsl.CheckStateResponse(ctx, resp, sc.s.ver, cv, mkProvider(mode, pool, &asked), userIDForSender)
+						})
+						cancel()
+						c.Count("state_responses_given_up_mid_batch")
+						if pan {
+							c.Failf("stateresponse:panic:"+site, "CheckStateResponse panics when its context ends mid-batch: %s", msg)
+							break
+						}
+						if cerr != nil {
+							continue
+						}
+						bad := map[string]bool{}
+						for _, it := range all {
+							if it.pdu != nil && !it.sigGood {
+								bad[it.pdu.EventID()] = true
+							}
+						}
+						for _, it := range all {
+							if it.pdu != nil && it.sigGood {
+								delete(bad, it.pdu.EventID()) // an intact copy of the same event is in the response too
+							}
+						}
+						for _, p := range append(append([]gmsl.PDU{}, ca...), cs...) {
+							if bad[p.EventID()] {
+								c.Failf("stateresponse:returns-bad-event:context-ended-mid-batch", "CheckStateResponse, its context cancelled after %d calls to the key ring, returned without error and handed out %s (%s), whose signature is invalid; faults %v", after, p.EventID(), p.Type(), desc)
+								break
+							}
+						}
+					}
+				}
 				check := func(kind string, in []respItem, out []gmsl.PDU, skip map[int]bool) {
 					outIDs := map[string]bool{}
 					for _, p := range out {
@@ -1052,6 +1097,31 @@ func c14AuthChain(c *mon.Ctx, r *gen.Rand, sc *simScenario) {
 				}
 				c.Failf("authchain:"+dir+":"+fault, "VerifyEventAuthChain(%s %s) = %v, the recursive definition says ok=%v (fault %s %s)", ev.Type(), ev.EventID(), err, want, fault, detail)
 			}
+			// a fault: the caller gives up while the chain is being walked (the provider is asked, and the context ends).
+			// Whatever is returned then, it is not "verified" for a chain that does not verify.
+			if !want && mode == provReturns {
+				for _, after := range []int{1, 2, 3} {
+					ctx, cancel := context.WithCancel(context.Background())
+					n := 0
+					inner := mkProvider(mode, pool, &asked)
+					prov := func(roomVer gmsl.RoomVersion, eventIDs []string) ([]gmsl.PDU, error) {
+						n++
+						if n >= after {
+							cancel()
+						}
+						return inner(roomVer, eventIDs)
+					}
+					var cerr error
+					site, msg, pan := mon.Guard(func() { cerr = gmsl.VerifyEventAuthChain(ctx, ev, prov, userIDForSender) })
+					cancel()
+					c.Count("auth_chain_checks_given_up_during_the_walk")
+					if pan {
+						c.Failf("authchain:panic:"+site, "VerifyEventAuthChain panics when its context ends during the walk: %s", msg)
+					} else if cerr == nil && n >= after {
+						c.Failf("authchain:accepts-broken-chain:context-ended-during-the-walk", "VerifyEventAuthChain(%s %s), its context cancelled at the provider's call %d, returns nil for a chain that does not verify (fault %s %s)", ev.Type(), ev.EventID(), after, fault, detail)
+					}
+				}
+			}
 			// a history: between two verifications of this event, another event of the same sender is verified and refused
 			// on the way (it cites a message among its auth events, after the room's create / member / power-levels /
 			// join-rules events). Nothing of that may be left over for the next question.
@@ -1551,4 +1621,21 @@ func c14RedactedRestrictedJoins(c *mon.Ctx, r *gen.Rand, versions []gmsl.RoomVer
 			c14RedactedCopyInState(c, r, s, state, authClosure(s.all, state), victim)
 		}
 	}
+}
+
+// cancellingVerifier is a key ring that works, and whose caller gives up after a number of calls.
+type cancellingVerifier struct {
+	inner  gmsl.JSONVerifier
+	after  int
+	calls  int
+	cancel context.CancelFunc
+}
+
+func (v *cancellingVerifier) VerifyJSONs(ctx context.Context, requests []gmsl.VerifyJSONRequest) ([]gmsl.VerifyJSONResult, error) {
+	v.calls++
+	res, err := v.inner.VerifyJSONs(ctx, requests)
+	if v.calls >= v.after {
+		v.cancel()
+	}
+	return res, err
 }
